@@ -907,6 +907,9 @@ fn extra(ctx: &Ctx) {
             Err(e) => harness_error(&format!("oracle self-test against Python decimal failed: {}", e)),
         }
     }
+    if ctx.tier == Tier::Thorough && std::env::var("VERIF_FUZZ").is_ok() {
+        fuzz_campaign(ctx);
+    }
     let (n_max, s_max, d_max) = ctx.tier.pick((1200u32, 4usize, 3u8), (20000u32, 5usize, 4u8));
     let stop = AtomicBool::new(false);
     (0..=n_max).into_par_iter().for_each(|n| {
@@ -1018,4 +1021,67 @@ pub fn fuzz_judge(data: &[u8]) -> Option<(&'static str, String, String)> {
         Verdict::Fail { key, detail } if !DATE_OVERFLOW_KEYS.contains(&key.as_str()) => Some((sub, key, detail)),
         _ => None,
     }
+}
+
+/// Bounded libFuzzer campaign (thorough tier, opt-in with VERIF_FUZZ=1 because it needs the
+/// nightly toolchain and a sanitizer build of about 5 minutes).  A crash input is decoded
+/// and judged in-process, so a finding becomes an ordinary replay file.
+fn fuzz_campaign(ctx: &Ctx) {
+    let root = verif_root();
+    let fuzz_dir = format!("{}/fuzz", root);
+    let runs: u64 = std::env::var("VERIF_FUZZ_RUNS").ok().and_then(|s| s.parse().ok()).unwrap_or(60_000);
+    // same library source as the harness build
+    let ovr = std::env::var("VERIF_REPO_OVERRIDE")
+        .ok()
+        .or_else(|| std::fs::read_to_string(format!("{}/.repo_override", root)).ok())
+        .map(|s| s.trim().to_string())
+        .filter(|s| !s.is_empty());
+    let cfg_dir = format!("{}/.cargo", fuzz_dir);
+    let cfg = format!("{}/config.toml", cfg_dir);
+    let _ = std::fs::create_dir_all(&cfg_dir);
+    let body = match &ovr {
+        Some(p) => format!("paths = [\"{}\"]\n[net]\noffline = true\n", p),
+        None => "[net]\noffline = true\n".to_string(),
+    };
+    let _ = std::fs::write(&cfg, body);
+    let work = format!("{}/corpus/fuzz_numfmt-run-{}", fuzz_dir, std::process::id());
+    let arts = format!("{}/artifacts/", work);
+    let _ = std::fs::create_dir_all(&arts);
+    let out = std::process::Command::new("cargo")
+        .current_dir(&fuzz_dir)
+        .env("CARGO_NET_OFFLINE", "true")
+        .env_remove("CARGO_TARGET_DIR")
+        .args(["+nightly", "fuzz", "run", "--fuzz-dir", ".", "fuzz_numfmt", &work, "seeds/fuzz_numfmt", "--"])
+        .arg(format!("-runs={}", runs))
+        .arg(format!("-seed={}", (ctx.seed % 0xFFFF_FFFF) + 1))
+        .arg("-max_len=40")
+        .arg(format!("-artifact_prefix={}", arts))
+        .output();
+    let _ = std::fs::remove_dir_all(&cfg_dir);
+    let mut crashes = 0u64;
+    if let Ok(rd) = std::fs::read_dir(&arts) {
+        for e in rd.flatten() {
+            let Ok(bytes) = std::fs::read(e.path()) else { continue };
+            crashes += 1;
+            if let Some((sub, case)) = fuzz_decode(&bytes) {
+                if let Some((_, key, detail)) = fuzz_judge(&bytes) {
+                    ctx.count_case(fnv(&bytes), true);
+                    ctx.judge(sub, &case, Verdict::fail(key, detail));
+                }
+            }
+        }
+    }
+    let status = match &out {
+        Ok(o) if o.status.success() => format!("ok: {} runs, no crash", runs),
+        Ok(o) if crashes > 0 => format!("{} crash input(s), exit {:?}", crashes, o.status.code()),
+        Ok(o) => format!(
+            "unavailable (exit {:?}): {}",
+            o.status.code(),
+            truncate(String::from_utf8_lossy(&o.stderr).lines().rev().take(3).collect::<Vec<_>>().join(" / ").as_str(), 300)
+        ),
+        Err(e) => format!("unavailable: {}", e),
+    };
+    eprintln!("note: fuzz_numfmt campaign: {}", status);
+    ctx.set_extra("fuzz_numfmt", json!(status));
+    let _ = std::fs::remove_dir_all(&work);
 }
